@@ -129,6 +129,21 @@ def run(chk, facts, tier, only=None):
                    f"deserialize_ignored_any must set is_untyped=true before dispatching, and restore the saved value on every exit "
                    f"(no `?`/return between); set at {set_at}, dispatch at {disp_at}, restore at {restore_at}, early exit: {early}",
                    ok_detail="is_untyped saved, set, dispatch, restored; no early exit in between")
+        # nothing is charged, read or handed to the visitor before the switch: work done ahead of `is_untyped = true` is metered as ordinary
+        # decoding (no skipping quota, no penalty factor) although the value is being skipped
+        if set_at is not None:
+            pre = []
+            for st in items[:set_at]:
+                for n in walk(st):
+                    if n.get("k") == "mcall" and (n["m"] == "add_cost" or n["m"].startswith("visit_") or n["m"].startswith("read_") or n["m"] in ("borrow_bytes", "set_position", "deserialize_any")
+                                                 or re.match(r"deserialize_\w+$", n["m"])):
+                        pre.append(n["m"])
+                    if n.get("k") == "ret":
+                        pre.append("return")
+            chk.expect(not pre, "skip:nothing-before-the-mode-switch",
+                       f"deserialize_ignored_any does work before it switches the decoder to skipping mode ({sorted(set(pre))}): a value skipped on that path is "
+                       f"charged to the decoding quota only — `set_skipping_quota(0)` no longer rejects it and the skipping penalty is not applied",
+                       where=f"{h['span']['file']}:{h['span']['lo']}", ok_detail="the mode switch is the first effect")
         ex = [i for i, st in enumerate(items) if (st.get("e") if st.get("k") == "semi" else st).get("k") == "assign"
               and expr_path((st.get("e") if st.get("k") == "semi" else st)["a"]) == "self.expect_type"]
         chk.expect(bool(ex) and ex[0] < (disp_at or 0), "skip:expected-becomes-wire",
